@@ -9,19 +9,19 @@ PBT = "property-based testing (proptest strategies, seeded, shrinking)"
 CHECKS = {
  'C01': dict(level='exploration', tech=PBT + " + exhaustive enumeration of small n; oracle: 4096-bit product / divisor / order predicate and an independent reference factorisation",
    text="Generated-input search over (n, selector, preferences): every selector on all n <= 2^16 and a stride to 2^22 exhaustively, plus thousands of constructed composites of 14 shapes with generated preferences, each run in a crash-isolated worker; every returned list is checked for product, order, absence of 0/1 and divisibility with arithmetic independent of the library. Sampling can show presence of a wrong product, not absence; the exhaustive part is complete for its range.",
-   note="bnum 0.8 and u128 arithmetic; reference factorisation (own Miller-Rabin + Brent rho) for n < 2^64; 200..500-bit general composites out of budget", ref='DESIGN.md section 2, C01'),
+   note="bnum 0.8 and u128 arithmetic; reference factorisation (own Miller-Rabin + Brent rho) for n < 2^64; 200..500-bit general composites out of budget; preferences include the verbosity level; inputs beyond the working range of Ecm128/Pm1/Ecm and integers with zero/all-ones interior words are judged on the list predicate only", ref='DESIGN.md section 2, C01'),
  'C02': dict(level='exploration', tech=PBT + " + exhaustive enumeration (Auto mode, n < 2^20 quick / 2^24 thorough); oracle: factorisation known by construction",
    text="Composites are built from certified primes (deterministic Miller-Rabin <= 64 bits, Pocklington certificates above), so the complete prime factorisation is ground truth and the library's own primality test is never consulted; Auto mode and the QS/ECM selectors inside their working range must return exactly that multiset, for thread counts None/2/8. Shapes are weighted to prime powers, squares of composites, many factors, tiny/close/repeated factors.",
-   note="certified-prime generator and reference factorisation are trusted; forced selectors judged only inside stated working ranges (bits): Qs 40..100, Mpqs 40..110, Siqs 40..140, Ecm128 20..90, Ecm 20..128", ref='DESIGN.md section 2, C02'),
+   note="certified-prime generator and reference factorisation are trusted; forced selectors judged only inside stated working ranges (bits): Qs 40..100, Mpqs 40..110, Siqs 40..140, Ecm128 20..90, Ecm 20..128 (a perfect power m^k counts with the size of m); an incomplete answer under a thread pool is judged here only if the call without a pool is incomplete too (otherwise C04); published strong pseudoprimes and Carmichael numbers are fixed cases", ref='DESIGN.md section 2, C02'),
  'C03': dict(level='exploration', tech=PBT + " + boundary-class enumeration, crash-isolated worker subprocesses under two build profiles",
    text="Every case runs in a worker subprocess built twice (release; release + debug assertions + overflow checks): panics (with the repository frame as signature), aborts, signals and stack exhaustion are attributed to the case in flight. Domain: all ten selectors on every n < 2^17, tiny p*q / p^2 / p^3, 57..64-bit inputs and the top of the u64 range, integers around 2^52/2^64/2^80/2^128, 480..512-bit fast shapes, 513..1023-bit inputs that must be refused, and generated composites per selector.",
-   note="termination only up to a per-case watchdog (inconclusive if hit); default preferences plus threads {None,2}; 501..512-bit band probed", ref='DESIGN.md section 2, C03'),
+   note="termination only up to a per-case watchdog (inconclusive if hit); default preferences plus threads {None,2}, use_double and the verbosity level; one input of every bit length 432..512 (200..512 thorough) on Ecm/Auto; 512-bit inputs are refused since F34", ref='DESIGN.md section 2, C03'),
  'C04': dict(level='exploration', tech="differential testing over thread counts with repetition + seeded schedule perturbation and directed delay-only schedules (window, freeze, ambush, stale publication) through a yield hook + generated insertion orders replayed into the relation store",
    text="Schedules are sampled, not enumerated: (1) each generated contention-prone input is run with 2..16 threads repeatedly and compared with the single-threaded run (terminates, no panic, valid, complete if the reference is complete); (2) the same with seeded yields/spins/sleeps injected at every lock acquisition and completion check, and with four directed schedules that hold workers exactly where the shared completion bookkeeping (count, target, gap, done) is read, decided on or published; (3) because every mutation of the relation store happens under its write lock, any interleaving equals some order of add calls: recorded adds of real sieves are replayed in generated orders with the C11 invariants checked after every step.",
    note="cannot exclude races on the relaxed atomics; OS scheduling is outside the harness's control (said in DESIGN.md section 6)", ref='DESIGN.md section 2, C04'),
  'C05': dict(level='fault_enumeration', tech="fault injection: counter fault on the abort predicate, flip instant enumerated after a calibration run; latency measured inside the worker",
    text="The abort predicate returns true from its k-th poll onward; for small inputs a calibration run counts the polls P of an un-aborted run and every k in [0, min(P,64)] plus generated k up to P is run, for six polling selectors, single- and 4-threaded; long inputs (un-aborted run takes minutes) are aborted at early k so that ignoring the predicate is observable. Oracle: product predicate or declared failure, no crash, return within a fixed delay after the first true (slow runs are repeated alone and flagged only if slow three times).",
-   note="monotone predicate; delay bound 10 s; non-polling stages (P-1, rho, linear algebra) are bounded at the sizes used", ref='DESIGN.md section 2, C05'),
+   note="monotone predicate; delay bound 10 s; non-polling stages (P-1, rho, linear algebra) are bounded at the sizes used; the class-group entry point (anchored file classgroup.rs) is run under the same predicate: once it fired the call must return without panic within the delay", ref='DESIGN.md section 2, C05'),
  'C06': dict(level='exploration', tech=PBT + " + exhaustive comparison with an independent sieve below 2^24 (quick) / 2^32 (thorough)",
    text="isprime64 is compared in both directions with a bitset sieve exhaustively on [0,2^24] (thorough: [0,2^32]) and with an independent 7-base deterministic Miller-Rabin on constructed strong-pseudoprime families, threshold neighbourhoods and millions of edge-biased 64-bit values incl. even ones; pseudoprime is checked one-sidedly on certified primes up to 512 bits, even numbers, Carmichael/Chernick products and p*q / p^2 of certified primes, and for agreement with isprime64 below 2^64.",
    note="reference Miller-Rabin base set {2,325,9375,28178,450775,9780504,1795265022} is a published deterministic set for 64 bits; Pocklington certificates for large primes", ref='DESIGN.md section 2, C06'),
